@@ -18,7 +18,7 @@ META = {
     "rule": (
         "Case = one map or parallel call (0-6 branches) with a generated CompletionConfig (min_successful in {None,1..n+1} "
         "x tolerated count {None,0..n} x tolerated percentage {None,0,25,50,100}, plus the presets and 'no config'), "
-        "max_concurrency {None,1..n+1}, per-branch behaviour {succeed v, fail e, suspend on a wait/callback, slow, block on "
+        "max_concurrency {None,1..n+1}, per-branch behaviour {succeed v, fail e, suspend on a wait/callback, park on a 1 s timer and get resumed inside the invocation, slow, block on "
         "a gate that is opened only AFTER the call returned (only for branches the policy does not need and never under a "
         "tighter concurrency limit)}, completion order chosen by the schedule, followed by a wait so that the next "
         "invocation replays the call. Oracle vs per-branch ground truth and an independent reference of the policy: one "
@@ -77,7 +77,17 @@ def cases(draw):
     mc = draw(st.one_of(st.none(), st.none(), st.integers(1, n + 1)))
     # parallel default config = all_successful; map default = empty config
     eff = norm_cfg(comp) if comp is not None else ({"min": None, "tol": None, "pct": None} if is_map else {"min": None, "tol": 0, "pct": 0})
-    kinds = [draw(st.sampled_from(["ok", "ok", "ok", "fail", "fail", "slow_ok", "slow_fail", "suspend", "block"])) for _ in range(n)]
+    kinds = [draw(st.sampled_from(["ok", "ok", "ok", "fail", "fail", "slow_ok", "slow_ok", "slow_fail", "suspend", "nap", "block"])) for _ in range(n)]
+    if n >= 2 and draw(st.integers(0, 5)) == 0:
+        # all workers busy with slow branches at the instant a timer-parked branch is resumed inside the invocation
+        mc = draw(st.integers(1, n - 1))
+        kinds = draw(st.permutations(["nap"] * (n - mc) + ["slow_ok"] * mc))
+        is_map = False
+        comp = {"min": None, "tol": n, "pct": None}
+        eff = norm_cfg(comp)
+        forced_sleep = 2.5
+    else:
+        forced_sleep = None
     # construction rule for `block`: only if the policy is decided by the others alone and no tighter concurrency limit
     succ = sum(1 for k in kinds if k in ("ok", "slow_ok"))
     fail = sum(1 for k in kinds if k in ("fail", "slow_fail"))
@@ -90,13 +100,20 @@ def cases(draw):
         v = to_tagged(draw(G.json_values))
         msg = f"err-{i}"
         if k in ("ok", "slow_ok"):
-            b = [{"op": "step", "beh": {"kind": "ret", "v": v}, "sem": "least", "retry": {"kind": "none"}, **({"sleep": draw(st.sampled_from([0.2, 0.5, 1.5]))} if k == "slow_ok" else {}),
+            b = [{"op": "step", "beh": {"kind": "ret", "v": v}, "sem": "least", "retry": {"kind": "none"}, **({"sleep": forced_sleep or draw(st.sampled_from([0.2, 0.5, 1.5, 2.5]))} if k == "slow_ok" else {}),
                   "yields": draw(st.integers(0, 2))}]
             truth.append(("ok", v))
         elif k in ("fail", "slow_fail"):
             b = [{"op": "step", "beh": {"kind": "always_fail", "err": "UserError", "msg": msg}, "sem": "least", "retry": {"kind": "none"},
                   **({"sleep": draw(st.sampled_from([0.2, 0.5]))} if k == "slow_fail" else {}), "yields": draw(st.integers(0, 2))}]
             truth.append(("fail", msg))
+        elif k == "nap":
+            # parks on a 1 s timer (wait or retry back-off) and is resumed by the in-process timer while slow siblings still run
+            nap = draw(st.sampled_from([{"op": "wait", "secs": 1},
+                                        {"op": "step", "beh": {"kind": "fail_by_attempt", "k": 1, "err": "UserError", "v": 0}, "sem": "least",
+                                         "retry": {"kind": "table", "max": 3, "delays": [1], "nonretry": []}}]))
+            b = [nap, {"op": "step", "beh": {"kind": "ret", "v": v}, "sem": "least", "retry": {"kind": "none"}, "sleep": draw(st.sampled_from([0.3, 1.0]))}]
+            truth.append(("suspend", v))
         elif k == "suspend":
             b = [draw(st.sampled_from([{"op": "wait", "secs": 3}, {"op": "callback", "between": []}])), {"op": "step", "beh": {"kind": "ret", "v": v}, "sem": "least", "retry": {"kind": "none"}}]
             truth.append(("suspend", v))
@@ -230,6 +247,16 @@ def classes(run, case):
         out.append("blocked-branch")
     if "suspend" in info["kinds"]:
         out.append("suspending-branch")
+    if "nap" in info["kinds"]:
+        out.append("timer-parked-branch")
+        seen = set()
+        for e in run.entries:
+            if e["kind"] == "branch":
+                if (e["path"], e["inv"]) in seen:
+                    out.append("branch-resumed-within-invocation")
+                    if info["mc"] is not None and info["mc"] < info["n"]:
+                        out.append("branch-resumed-within-invocation-under-concurrency-limit")
+                seen.add((e["path"], e["inv"]))
     if info.get("_reason"):
         out.append("reason:" + info["_reason"])
     return out
